@@ -55,9 +55,11 @@ $(GEN)/crypt.h: $(REPO)/lib/crypt.h.in $(REPO)/lib/hashes.conf $(REPO)/config.h 
 
 # ---- symbol redirection lists (library objects only)
 REDIR_MEM := malloc realloc free mmap munmap arc4random_buf __assert_fail abort \
-             calloc posix_memalign aligned_alloc mmap64
+             calloc posix_memalign aligned_alloc mmap64 strdup strndup reallocarray memalign valloc
 REDIR_THR := memcpy memmove memset explicit_bzero memcmp bcmp snprintf \
              pthread_mutex_lock pthread_mutex_trylock pthread_mutex_unlock pthread_once \
+             pthread_rwlock_rdlock pthread_rwlock_wrlock pthread_rwlock_unlock pthread_spin_lock pthread_spin_unlock \
+             mtx_lock mtx_trylock mtx_unlock call_once \
              strlen strcspn strspn strncmp strchr strrchr strtoul
 # libc functions POSIX documents as MT-Unsafe, plus ordinary nondeterminism
 # sources: reached => recorded by the runtime (see sim/stubs.c)
